@@ -1,0 +1,32 @@
+//go:build verif && vfs
+
+package litestream
+
+import (
+	"context"
+
+	"github.com/superfly/ltx"
+)
+
+// Verification hooks for the VFS read replica (add-only, compiled only with
+// `-tags "verif vfs"`). They export what an external module cannot reach: a
+// synchronous poll entry point and read accessors for the page index state.
+
+// VerifPoll runs one pollReplicaClient synchronously (what monitorReplicaClient does on a tick).
+func (f *VFSFile) VerifPoll(ctx context.Context) error { return f.pollReplicaClient(ctx) }
+
+// VerifIndex returns copies of the main and pending page indexes, the pending-replace flag,
+// the commit and the last TXID read from level 1.
+func (f *VFSFile) VerifIndex() (index, pending map[uint32]ltx.PageIndexElem, pendingReplace bool, commit uint32, maxTXID1 ltx.TXID) {
+	f.mu.Lock()
+	defer f.mu.Unlock()
+	index = make(map[uint32]ltx.PageIndexElem, len(f.index))
+	for k, v := range f.index {
+		index[k] = v
+	}
+	pending = make(map[uint32]ltx.PageIndexElem, len(f.pending))
+	for k, v := range f.pending {
+		pending[k] = v
+	}
+	return index, pending, f.pendingReplace, f.commit, f.maxTXID1
+}
